@@ -72,8 +72,16 @@ THEOREMS = [
     "SysLoss.C12.toSSys_tableWF", "SysLoss.C12.toSSys_railsUnique", "SysLoss.C12.sysEquiv_isoUpTo_partial", "SysLoss.C12.sysEquiv_iso_partial",
     "SysLoss.C12.sysEquiv_same_table_partial", "SysLoss.C12.sysEquiv_same_error_partial", "SysLoss.C12.sysEquiv_same_rail_rep_partial",
     "SysLoss.C12.roundtrip_explicit", "SysLoss.C12.reload_same_table_partial", "SysLoss.C12.reload_same_rail_rep_partial",
+    # Props/C12Same: the documents of two systems with the same final structure carry the same information
+    "SysLoss.CompEquiv.refl", "SysLoss.CompEquiv.symm", "SysLoss.CompEquiv.trans", "SysLoss.C12.SysEquiv.refl", "SysLoss.C12.SysEquiv.symm",
+    "SysLoss.C12.SysEquiv.trans", "SysLoss.C12.sysEquiv_equivalence", "SysLoss.C12.DescWF.retopo", "SysLoss.C12.DescWF.of_sysEquiv",
+    "SysLoss.C12.roundtrip_general", "SysLoss.C12.save_same_structure", "SysLoss.C12.save_same_structure_partial",
+    "SysLoss.C12.reloads_same_table_partial", "SysLoss.C12.reloads_same_rail_rep_partial", "SysLoss.C12.save_same_structure_same_table_partial",
+    "SysLoss.C12.save_same_structure_same_rail_rep_partial", "SysLoss.C12.save_topo_irrelevant", "SysLoss.C12.save_topo_irrelevant_partial",
+    "SysLoss.C12.toSSys_congr_regs", "SysLoss.C12.sysEquivR_same_table_partial", "SysLoss.C12.sysEquivR_same_rail_rep_partial",
+    "SysLoss.C12.save_same_structure_reg_partial",
 ]
-MODULES = ["SysLoss.Props.C12", "SysLoss.Props.C12Layout", "SysLoss.Props.C12Solve"]
+MODULES = ["SysLoss.Props.C12", "SysLoss.Props.C12Layout", "SysLoss.Props.C12Solve", "SysLoss.Props.C12Same"]
 RULE = ("random power trees from gen.gen_system (1-3 sources, <=24 nodes, all 11 kinds, tabulated eff/vdrop/ig 1-D and 2-D, PMux rs lists, "
         "deprecated LinReg iq, loss flags, rt, limits on applicable keys, groups, rails, system phases, component phase configurations), "
         "saved to and reloaded from real files in a temporary directory; plus streams: version strings below/equal/above, documents with "
